@@ -491,6 +491,24 @@ func init() {
 		}
 		e.wantSel = want
 		e.lifecycle("Resume", 0)
+		if r.Intn(2) == 0 {
+			// pauses while draining: a pause must not cost a queue its turn
+			var jn joiner
+			np := e.p("pauses", 1+r.Intn(3))
+			jn.goClient("pauser", func() {
+				for i := 0; i < np; i++ {
+					for k := r.Intn(4); k > 0; k-- {
+						vt.Yield()
+					}
+					e.lifecycle("Pause", 0)
+					for k := r.Intn(3); k > 0; k-- {
+						vt.Yield()
+					}
+					e.lifecycle("Resume", 0)
+				}
+			})
+			jn.wait()
+		}
 		e.drain()
 		var got []int
 		type st struct{ t, q int }
